@@ -15,6 +15,7 @@ import (
 func init() {
 	commands["c14.instantiate"] = c14Instantiate
 	commands["c14.tm"] = c14Tm
+	commands["c14.pipeline"] = c14Pipeline
 }
 
 type gen14 struct {
@@ -414,6 +415,32 @@ func c14Tm(rng *rand.Rand, n int, _ []string) {
 			rules[j] = sx.List(sx.Int(int(r.LHS)), sx.Ints(rhs))
 		}
 		sx.Case("c14.tm", m.str(), sx.List("ok", sx.Int(gr.Parser.NumTerminals), sx.List(syms...), sx.List(rules...)))
+	}
+	for k, v := range stats {
+		sx.Stat(k, v)
+	}
+}
+
+// c14Pipeline runs Instantiate and then Expand on the same model: the instantiated nonterminals carry the
+// unexported group field, which delays sortTail until all instances of one template have been expanded.
+func c14Pipeline(rng *rand.Rand, n int, _ []string) {
+	stats := map[string]int{}
+	for i := 0; i < n; i++ {
+		xm := genModel14(rng, stats, false)
+		m := xm.toSyntax()
+		if err := syntax.Instantiate(m); err != nil {
+			sx.Case("c14.pipeline", xm.str(), sx.List("err"))
+			continue
+		}
+		before := len(m.Nonterms)
+		if err := syntax.Expand(m, syntax.DefaultExpandOptions()); err != nil {
+			sx.Case("c14.pipeline", xm.str(), sx.List("err"))
+			continue
+		}
+		if len(m.Nonterms) > before {
+			stats["pipeline-with-extracted-nonterminals"]++
+		}
+		sx.Case("c14.pipeline", xm.str(), sx.List("ok", implNontermsStr(m), implInputsStr(m)))
 	}
 	for k, v := range stats {
 		sx.Stat(k, v)
